@@ -39,7 +39,10 @@ DefaultMsgs == { M(0, 257, TRUE, "CE", 280, "DW", 4), M(0, 257, FALSE, "CE", 280
                  M(16777251, 272, TRUE, "", 316, "CC", 4), M(16777238, 265, FALSE, "", 272, "AA", 1),
                  \* base commands under an application id no dictionary defines (they resolve through base);
                  \* the neighbouring index key is the same command under application 0
-                 M(99999, 257, TRUE, "CE", 280, "DW", 0), M(99999, 280, FALSE, "DW", 257, "CE", 0) }
+                 M(99999, 257, TRUE, "CE", 280, "DW", 0), M(99999, 280, FALSE, "DW", 257, "CE", 0),
+                 \* a user dictionary (application 4242) with short names of three letters and of one; the neighbouring
+                 \* name is a prefix / an extension of the message's own
+                 M(4242, 901, TRUE, "LCS", 903, "LC", 0), M(4242, 903, FALSE, "LC", 901, "LCS", 0), M(4242, 902, TRUE, "Q", 903, "LC", 0) }
 
 Init == m \in Msgs /\ regs = <<>> /\ nextKey = 1 /\ rereg = 0
 \* sp = spelling used to register: the catch-all can be registered as Handle("ALL", h) or as
